@@ -31,7 +31,9 @@ theorem rules_structure_facts :
     PdModel.Generated.Rules.setGroupBundleLocked = true ∧
     PdModel.Generated.Rules.deleteGroupBundleLocked = true ∧
     PdModel.Generated.Rules.getAllRulesLocked = true ∧
-    PdModel.Generated.Rules.getRulesByKeyLocked = true := by decide
+    PdModel.Generated.Rules.getRulesByKeyLocked = true ∧
+    -- loadRules writes the restored rules before it removes the stale keys (a failure in between loses nothing)
+    PdModel.Generated.Rules.loadRulesSaveBeforeDelete = true := by decide
 
 
 /-- **the manager's mutex makes one update one atomic step**: every mutating entry point (and Initialize) takes
@@ -579,5 +581,31 @@ theorem reachable_spec_functions_agree (ops : List (Op × Fail)) (k sk ek : Nat)
     getSplitKeys s.mgr.ruleList sk ek = splitKeys ⟨s.mgr.cfg.rules, s.mgr.cfg.groups⟩ sk ek ∧
     keyOK ⟨s.mgr.cfg.rules, s.mgr.cfg.groups⟩ k = true :=
   spec_functions_agree _ (reachable_wf ops) k sk ek
+
+
+/-! ## start-up with a failing write (key repair of loadRules) -/
+
+theorem initMgrF_none (ip : InitParams) (store : Storage) :
+    (initMgrF ip store none).2 = (initMgr ip store).2 ∧
+    ((initMgrF ip store none).1.isSome ↔ ∃ m, (initMgr ip store).1 = .ok m) := by
+  unfold initMgrF
+  cases h : initMgr ip store with
+  | mk r st => cases r <;> simp
+
+/-- **F6f (known finding)**: rule g2/aa is stored under the foreign key g2/a, and its own key g2/aa holds the only copy
+    of the (also misplaced) rule pd/ab.  A healthy start-up serves both.  If the second write of the repair fails,
+    pd/ab has already been overwritten by the restored g2/aa and is not yet re-saved: the next, healthy start-up no
+    longer serves it. -/
+def chainedStore : Storage :=
+  { rules := [((2, 1), some { rA with group := 2, id := 2, end_ := 0 }),
+              ((2, 2), some { rA with group := 4, id := 3, end_ := 0 }),
+              ((4, 6), some (defaultRule 3 2 4 6))] }
+
+theorem failed_initialize_chained_counterexample :
+    (match (initMgr ip0 chainedStore).1 with
+      | .ok m => (getR (4, 3) m.cfg.rules).isSome | .error _ => false) = true ∧
+    (initMgrF ip0 chainedStore (some 1)).1.isNone = true ∧
+    (match (initMgr ip0 (initMgrF ip0 chainedStore (some 1)).2).1 with
+      | .ok m => (getR (4, 3) m.cfg.rules).isSome | .error _ => true) = false := by decide
 
 end PdModel.Rules
